@@ -1170,9 +1170,12 @@ const nres = 4
 // avoidSet: input classes of open findings (true = defect present, avoid the class)
 type avoidSet struct{ topGoto, rangeKey, selectConst, rangeAssign, selectOk, goArgs bool }
 
-func genProgram(r *vh.Rng, maxDepth int, ext bool, avoid avoidSet, focus string) *program {
+func genProgram(r *vh.Rng, maxDepth int, ext bool, avoid avoidSet, focus string, small bool) *program {
 	topGoto := !avoid.topGoto
 	g := &gen{r: r, maxDepth: maxDepth, ext: ext, budget: 14 + r.Intn(22), avoid: avoid, feat: map[string]int{}}
+	if small {
+		g.budget = 0 // skeleton: the focused constructs with their locals and jumps, no random statements around them
+	}
 	g.frames = [][]string{nil}
 	for i := 0; i < nres; i++ {
 		v := ref{fmt.Sprintf("v%d", i), 0, i}
@@ -1190,13 +1193,16 @@ func genProgram(r *vh.Rng, maxDepth int, ext bool, avoid avoidSet, focus string)
 		g.feat["goto-toplevel"]++
 	}
 	n := 2 + r.Intn(4)
+	if small {
+		n = 1
+	}
 	for i := 0; i < n; i++ {
 		var p piece
 		stop := false
 		switch {
-		case focus == "deepjump" && r.Chance(3, 5):
+		case focus == "deepjump" && (small || r.Chance(3, 5)):
 			p = g.deepJump(1)
-		case focus == "tswitch" && r.Chance(7, 10):
+		case focus == "tswitch" && (small || r.Chance(7, 10)):
 			p, _ = g.typedSwitch(1)
 			g.usedExt = true
 		default:
